@@ -14,6 +14,8 @@ REAL_CONNECT = sqlite3.connect
 REAL_REMOVE = os.remove
 REAL_UNLINK = os.unlink
 REAL_MKDIR = os.mkdir
+REAL_STAT = os.stat
+REAL_OS_OPEN = os.open
 
 _lib = None
 BUSYCB = ctypes.CFUNCTYPE(ctypes.c_int, ctypes.c_void_p, ctypes.c_int)
@@ -80,6 +82,25 @@ def install():
     os.remove = remove
     os.unlink = unlink
     os.mkdir = mkdir
+
+    # existence checks and raw creation of files in the cache folder are pre-emption points too
+    # (check-then-create races need two callers between the check and the creation)
+    def stat(path, *a, **k):
+        s = _active
+        if s is None or isinstance(path, int) or not s.wants(path):
+            return REAL_STAT(path, *a, **k)
+        s.sched.yield_point("stat", s.rel(path))
+        return REAL_STAT(path, *a, **k)
+
+    def os_open(path, *a, **k):
+        s = _active
+        if s is None or not s.wants(path):
+            return REAL_OS_OPEN(path, *a, **k)
+        s.sched.yield_point("os_open", s.rel(path))
+        return REAL_OS_OPEN(path, *a, **k)
+
+    os.stat = stat
+    os.open = os_open
 
 
 class ConnRec:
